@@ -391,13 +391,21 @@ func main() {
 						if !c.Mine() || c.Expired() {
 							continue
 						}
-						c.Explore(bootScenario(bc, b), bc)
+						bb := b
+						if len(bc.Ops) >= 3 && bb > 1 {
+							bb = 1 // triples: one preemption (many goroutines)
+						}
+						c.Explore(bootScenario(bc, bb), bc)
 					}
 				},
 				Replay: func(c *explore.EnumCtx, desc json.RawMessage) {
 					var bc bcase
 					json.Unmarshal(desc, &bc)
-					c.ReplaySub(bootScenario(bc, b))
+					bb := b
+					if len(bc.Ops) >= 3 && bb > 1 {
+						bb = 1
+					}
+					c.ReplaySub(bootScenario(bc, bb))
 				},
 			}, holderScenario(b), idleScenario("read", b+1), idleScenario("write", b+1), poolScenario(b + 1),
 				codecScenario("varint+json", func() []netty.Handler {
